@@ -74,7 +74,6 @@ VARIABLES up,     \* connected links
           bud,    \* budgets used
           last
 
-obs  == <<up, pend, gone, ctr, seen, tbl, net>>
 vars == <<up, pend, gone, ctr, seen, tbl, net, cfg, nann, proc, fwd, sent, viol, clean, bud, last>>
 view == <<up, pend, gone, ctr, seen, tbl, net, cfg, nann, proc, fwd, sent, viol, clean, bud>>
 
